@@ -38,7 +38,7 @@ theorem evalBin_denote (op : BinOp) (a c : SV) (h1 : op ≠ .and) (h2 : op ≠ .
     resOf (denoteBin op a c) (evalBin op (mkV a.toVal) (mkV c.toVal)) := by
   cases op <;> cases a <;> cases c <;>
     simp [denoteBin, evalBin, mkV, SV.toVal, SV.isNum, SV.toFloat, Val.isFloat, Val.isString, Val.rkind, Val.kind,
-      equalValueTo, Val.isInteger, comparableDeep, goEq, containsVal, Val.resolved] at h1 h2 ⊢
+      equalValueTo, Val.isInteger, Val.isBool, Val.reflected, Val.toFloat, comparableDeep, goEq, containsVal, Val.resolved] at h1 h2 ⊢
   all_goals first
     | (simp [resOf, SV.toVal, mkV, bne]; done)
     | (apply resOf_ite <;> intro _ <;> simp [resOf, SV.toVal, mkV])
